@@ -800,6 +800,7 @@ func (fv *FV) builtin(st *State, x *ssa.Call, b *ssa.Builtin) {
 		}
 		st.frame.Regs[x] = tv(r)
 	case "append":
+		fv.appendAliasCheck(st, x)
 		s := fv.vterm(st, c.Args[0])
 		t := fv.vterm(st, c.Args[1])
 		if t.Sort == SStr {
@@ -1015,4 +1016,98 @@ func (fv *FV) isFreeVarName(spec *FuncSpec, name string) bool {
 		}
 	}
 	return false
+}
+
+// appendAliasCheck: slices are modelled as values (array, length), so an append that writes into a
+// backing array which is also reachable from the heap would change data behind the model's back. The
+// idiom `x.f = append(x.f, v)` is fine (the only other reference is the field being replaced); an append
+// to a slice loaded from a field or a package variable (possibly re-sliced, e.g. `buf := x.f[:0]`) whose
+// result goes anywhere else is the obligation #alias:append (decided on the program text).
+func (fv *FV) appendAliasCheck(st *State, x *ssa.Call) {
+	if st.frame == nil || st.frame.ID != 0 || len(x.Call.Args) == 0 {
+		return
+	}
+	// cells of locals: value stored into a cell -> follow loads of that cell back to what was stored
+	var root func(v ssa.Value, depth int) ssa.Value
+	root = func(v ssa.Value, depth int) ssa.Value {
+		if depth > 16 {
+			return v
+		}
+		switch y := v.(type) {
+		case *ssa.Slice:
+			return root(y.X, depth+1)
+		case *ssa.ChangeType:
+			return root(y.X, depth+1)
+		case *ssa.Call:
+			if b, ok := y.Call.Value.(*ssa.Builtin); ok && b.Name() == "append" && len(y.Call.Args) > 0 {
+				return root(y.Call.Args[0], depth+1)
+			}
+		case *ssa.UnOp:
+			if y.Op == token.MUL {
+				if al, ok := y.X.(*ssa.Alloc); ok && !fv.isHeapObject(al) {
+					// a local variable: what was stored into it (first store in source order that is not an
+					// append of itself)
+					var first ssa.Value
+					for _, r := range *al.Referrers() {
+						if stv, ok := r.(*ssa.Store); ok && stv.Addr == al {
+							if first == nil || stv.Pos() < first.Pos() {
+								first = stv.Val
+							}
+						}
+					}
+					if first != nil && first != v {
+						return root(first, depth+1)
+					}
+				}
+			}
+		}
+		return v
+	}
+	r := root(x.Call.Args[0], 0)
+	ld, isLoad := r.(*ssa.UnOp)
+	if !isLoad || ld.Op != token.MUL {
+		return // literal, make, nil, parameter, call result: not a heap-resident slice as far as this rule goes
+	}
+	var src ssa.Value
+	switch a := ld.X.(type) {
+	case *ssa.FieldAddr:
+		src = a
+	case *ssa.Global:
+		src = a
+	default:
+		return
+	}
+	sameTarget := func(addr ssa.Value) bool {
+		switch a := addr.(type) {
+		case *ssa.Global:
+			g, ok := src.(*ssa.Global)
+			return ok && g == a
+		case *ssa.FieldAddr:
+			f, ok := src.(*ssa.FieldAddr)
+			if !ok || f.Field != a.Field {
+				return false
+			}
+			// same base object: same SSA value, or loads of the same cell / parameter
+			if f.X == a.X {
+				return true
+			}
+			l1, ok1 := f.X.(*ssa.UnOp)
+			l2, ok2 := a.X.(*ssa.UnOp)
+			return ok1 && ok2 && l1.X == l2.X
+		}
+		return false
+	}
+	// where does the result go? directly into the same field / variable, or through a local that is
+	// finally stored there - accept only the direct idiom and the idiom via the same local cell
+	okUse := false
+	for _, ref := range *x.Referrers() {
+		if stv, ok := ref.(*ssa.Store); ok && stv.Val == x && sameTarget(stv.Addr) {
+			okUse = true
+		}
+	}
+	goal := tTrue
+	if !okUse {
+		goal = tFalse
+	}
+	fv.oblige(st, "owned", "append-shared", x.Pos(), goal, "append to a slice that lives in the heap must replace that very field (shared backing array)")
 }
